@@ -72,6 +72,27 @@ static long lines_for(size_t count, int per) { return (long)((count + per - 1) /
 
 struct Entry { int r, c; double re, im, tol; };
 
+// "Any entry order in coordinate files": one byte picks the order.  Above 95: a random shuffle (as before); otherwise one of the
+// structured orders a program that dumps a matrix produces - column-major (as stored), row-major, either of them backwards,
+// columns descending with rows ascending.  A zero byte keeps the stored order.
+template <class E> static void order_entries(vf::Choice &c, std::vector<E> &sh, vf::Ctx &cx)
+{
+    unsigned b = c.u8();
+    if (sh.size() < 2) return;
+    if (b > 95) { for (size_t i = 0; i + 1 < sh.size(); ++i) { size_t j = i + c.below((unsigned)(sh.size() - i)); std::swap(sh[i], sh[j]); } cx.label("shuffled-entries"); return; }
+    unsigned k = b < 32 ? 0 : 1 + (b - 32) / 16;
+    auto colmajor = [](const E &x, const E &y) { return x.c != y.c ? x.c < y.c : x.r < y.r; };
+    auto rowmajor = [](const E &x, const E &y) { return x.r != y.r ? x.r < y.r : x.c < y.c; };
+    switch (k) {
+    case 0: return;
+    case 1: std::stable_sort(sh.begin(), sh.end(), rowmajor); cx.label("order=row-major"); break;
+    case 2: std::stable_sort(sh.begin(), sh.end(), colmajor); std::reverse(sh.begin(), sh.end()); cx.label("order=column-major-reversed"); break;
+    case 3: std::stable_sort(sh.begin(), sh.end(), rowmajor); std::reverse(sh.begin(), sh.end()); cx.label("order=row-major-reversed"); break;
+    default: std::stable_sort(sh.begin(), sh.end(), [](const E &x, const E &y) { return x.c != y.c ? x.c > y.c : x.r < y.r; }); cx.label("order=columns-descending"); break;
+    }
+    cx.label("shuffled-entries");
+}
+
 template <class T> static void run_T(Choice &c, Ctx &cx)
 {
     typedef typename Tr<T>::R R;
@@ -135,7 +156,7 @@ template <class T> static void run_T(Choice &c, Ctx &cx)
         int ncomm = (int)c.below(3); for (int k = 0; k < ncomm; ++k) text += "% a comment line\n";
         text += fmt("%d %d %zu\n", n, n, nnz);
         std::vector<Entry> sh = stored;
-        if (c.chance(160) && sh.size() > 1) { for (size_t i = 0; i + 1 < sh.size(); ++i) { size_t j = i + c.below((unsigned)(sh.size() - i)); std::swap(sh[i], sh[j]); } cx.label("shuffled-entries"); }
+        order_entries(c, sh, cx);
         int dig = c.chance(170) ? (single ? 9 : 17) : 4 + (int)c.below(6);
         for (auto &e : sh) {
             if (cplx) text += fmt("%d %d %.*g %.*g\n", e.r + 1, e.c + 1, dig, e.re, dig, e.im); else text += fmt("%d %d %.*g\n", e.r + 1, e.c + 1, dig, e.re);
@@ -145,7 +166,7 @@ template <class T> static void run_T(Choice &c, Ctx &cx)
         kind = fmtk == 7 ? "triplet" : "triplet-noheader";
         zero_based = c.chance(100);
         std::vector<Entry> sh = stored;
-        if (c.chance(160)) for (size_t i = 0; i + 1 < sh.size(); ++i) { size_t j = i + c.below((unsigned)(sh.size() - i)); std::swap(sh[i], sh[j]); }
+        order_entries(c, sh, cx);
         if (fmtk == 7) {
             // 0-based is recognised by a zero in the first entry; 1-based files cannot contain one
             if (zero_based) { size_t z = sh.size(); for (size_t i = 0; i < sh.size(); ++i) if (sh[i].r == 0 || sh[i].c == 0) { z = i; break; } if (z == sh.size()) zero_based = false; else std::swap(sh[0], sh[z]); }
